@@ -206,9 +206,9 @@ def chain_rule(ctx, prog, pfx='C15'):
     pc = list(fp.calls('parse'))
     ctx.require(len(pc) == 1, 'do_parse(): expected one call to parse()')
     hd = Pp.expr(pc[0].ops[1])
-    okh = hd[0] == 'addr' and addr_key(hd) == 'A:head_blk.hdr'
+    okh = hd[0] == 'addr' and addr_key(hd) == 'A:' + expandrules.head_local(prog) + '.hdr'
     pushes = [e for e in pi['events'] if e[0] == 'push_order']
-    oks = bool(pushes) and all(s == 'A:head_blk' for _, _, _, _, s in pushes)
+    oks = bool(pushes) and all(s == 'A:' + expandrules.head_local(prog) for _, _, _, _, s in pushes)
     ctx.ob(pfx + '.chain.stored', 'do_parse(): the header parse() fills (&head_blk.hdr) is the one pushed on order_q',
            fp.loc(pc[0]), okh and oks, 'parse(.., %s, ..); pushed from %s' % (render(hd), [s for _, _, _, _, s in pushes]))
     # nobody else writes order_q elements' hdr, and do_reorder's re-insertion keeps hdr
@@ -216,7 +216,7 @@ def chain_rule(ctx, prog, pfx='C15'):
     Pr = Prov(prog, r)
     wr = []
     for i in r.insns():
-        if i.op == 'store' and addr_key(Pr.addr(i.ops[1])).startswith('A:ord.hdr'):
+        if i.op == 'store' and addr_key(Pr.addr(i.ops[1])).startswith('A:' + expandrules.ord_local(prog) + '.hdr'):
             wr.append(r.loc(i))
     ctx.ob(pfx + '.chain.stored', 'do_reorder() never modifies the header it took from order_q', r.loc(), not wr,
            ', '.join(wr), nontrivial=False)
